@@ -716,6 +716,8 @@ def run_archive(plan, w, viols, states):
     pre = 0
     buckets = set()
     rot_seen = set()
+    segment = {}  # template path -> ids in the file that is at that path *now* (reset whenever the writer must rotate it away)
+    model_current = [None]  # the path this archiver incarnation is appending to
 
     def add(v):
         if not any(x["invariant"] == v["invariant"] for x in viols):
@@ -758,6 +760,11 @@ def run_archive(plan, w, viols, states):
                 arch.write(rec)
                 placed[n] = path
                 written.append(n)
+                if model_current[0] != path:
+                    # a switch to this path: whatever file is there belongs to an earlier time and is rotated away
+                    segment[path] = []
+                    model_current[0] = path
+                segment[path].append(n)
                 w.log("arch", "write", n, path[len(root):], "-> ok")
             except Exception as e:  # noqa: BLE001
                 w.probe("write-refused")
@@ -766,6 +773,8 @@ def run_archive(plan, w, viols, states):
                     add(_viol("C17.write-raises", "step %d: archiving a record raised %s: %s" % (step, type(e).__name__, short(str(e), 120))))
                 else:
                     w.probe("write-refused-by-injected-fault")  # refused, not lost: the record is not in the model
+                    if len([e for e in w.fs.events if e[0] == "rename"]) > before:
+                        segment.pop(path, None)  # the old file was moved away before the open of the new one failed
             after = len([e for e in w.fs.events if e[0] == "rename"])
             if after > before:
                 rotations += after - before
@@ -782,6 +791,7 @@ def run_archive(plan, w, viols, states):
             except Exception as e:  # noqa: BLE001
                 add(_viol("C17.close-raises", "step %d: archiver close raised %s: %s" % (step, type(e).__name__, e)))
             closed = True
+            model_current[0] = None
             w.log("arch", "close")
         elif k == "restart":
             try:
@@ -791,6 +801,7 @@ def run_archive(plan, w, viols, states):
             arch = make_archiver(plan, root, name)
             w.keep.append(arch)
             closed = False
+            model_current[0] = None
             restarts += 1
             w.probe("restart")
             w.log("arch", "restart")
@@ -810,6 +821,7 @@ def run_archive(plan, w, viols, states):
                 w.fs.inject.update(armed)
                 placed[n] = path
                 written.append(n)
+                segment[path] = [n]
                 n += 1
                 pre += 1
                 w.log("other", "precreate", path[len(root):])
@@ -843,6 +855,18 @@ def run_archive(plan, w, viols, states):
             found[i] += 1
             if i in placed and origin.get(ino) != placed[i]:
                 add(_viol("C17.placement", "record %d belongs to %s but sits in %s (a file first created as %s)" % (i, placed[i], path, origin.get(ino))))
+    # the file that is at a template path now holds exactly what was written there since it was (re)created
+    for path in sorted(segment):
+        if not w.fs.isfile(path):
+            add(_viol("C17.placement", "no file at %s although records %s were archived there" % (path, short(segment[path], 60))))
+            continue
+        try:
+            ids = [g[0] for g in lib_read_ids(path)]
+        except Exception:  # noqa: BLE001
+            continue  # reported by the conservation pass above
+        if ids != segment[path]:
+            add(_viol("C17.placement", "the file at %s holds records %s; since it was last (re)created records %s were archived to that path (the others must be in rotated files, these must be here)" % (
+                path, short(ids, 60), short(segment[path], 60)), {"path": path}))  # fmt: skip
     lost = [i for i in written if found[i] == 0]
     dup = [i for i in written if found[i] > 1]
     extra = [i for i in found if i not in placed]
